@@ -501,7 +501,7 @@ func (in *Interp) unixOfTime(v Value) *Term {
 func (in *Interp) durationBetween(as, an, bs, bn *Term) Value {
 	ts := in.ts
 	diff := ts.Sub(as, bs)
-	const lim = 9223372035 // |diff| beyond this saturates
+	const lim = 9223372035                                     // |diff| beyond this saturates
 	if !(in.env.clockSecs[as.ID] && in.env.clockSecs[bs.ID]) { // two clock readings are never that far apart
 		if in.Branch(ts.Slt(ts.Const(64, lim), diff)) {
 			return ts.Const(64, uint64(1<<63-1))
